@@ -134,6 +134,13 @@ def to_behaviour(hist, bid, padmap):
     return b
 
 
+def _phase(pid, tier):
+    if pid != "C10":
+        return None
+    from . import fam_conc
+    return fam_conc.create_phase(pid, tier)
+
+
 def check(pid, tier, replay=None):
     consts, n_beh, emit, extra = cfg(pid, tier)
     limit = consts["Limit"]
@@ -143,7 +150,7 @@ def check(pid, tier, replay=None):
         pid, tier, family="seq", base_module="ChfSeqMC", consts=consts, invariants=INV[pid], n_beh=n_beh,
         to_behaviour=lambda h, bid: to_behaviour(h, bid, lambda p: realpad(limit, p)),
         harness_mode="seq", trace_module="ChfSeqTrace", trace_consts={k: core.tla_bool(v) for k, v in DEV.items()},
-        clauses=CLAUSES[pid], extra=extra, replay=replay,
+        clauses=CLAUSES[pid], extra=extra, replay=replay, extra_phase=_phase(pid, tier),
         assumptions=[
             "fake in-memory MongoDB stands in for mongod (find/update semantics trusted)",
             "harness projection code and TLV walker trusted; TLC and CommunityModules trusted",
